@@ -1,19 +1,44 @@
-(* Property C07 (part 3): the optimality clause ("which no state of that Schmidt rank can exceed").
-   FULL STATEMENT (not proved in full): for psi = sum_i s_i u_i (x) v_i (Schmidt form, s non-increasing) and any unit phi of
-   Schmidt rank <= k,  |<phi|psi>|^2 <= sum_{i<k} s_i^2.
-   PROVED PART (C07_optimal_truncation_partial): the arithmetic core.  Cauchy-Schwarz and Bessel's inequality give
-   |<phi|psi>|^2 <= sum_i s_i^2 w_i  with  w_i = |P u_i|^2 in [0,1]  (P = projector on the left support of phi, rank <= k) and
-   sum_i w_i <= k; from there the bound by the k largest s_i^2 is this theorem.  MISSING: the Hilbert-space step (Cauchy-Schwarz,
-   Bessel) producing the weights.  The value sum_{i<k} s_i^2 is the one the truncation reaches (C07_overlap_truncated). *)
-From Coq Require Import Reals.
-From QV Require Import TopK.
+(* Property C07 (part 3): the optimality clause ("which no state of that Schmidt rank can exceed"), in full.
+   psi = sum_{i<r} s_i u_i (x) v_i with orthonormal u, orthonormal v, s >= 0 non-increasing (the Schmidt form numpy's SVD
+   returns; contract monitored).  phi = sum_{j<k} t_j a_j (x) b_j with orthonormal a, orthonormal b and sum |t_j|^2 = 1: an
+   arbitrary unit vector of Schmidt rank <= k, written in its own Schmidt form.  Then |<phi|psi>|^2 <= sum_{i<k} s_i^2 - the value
+   the truncation to k terms reaches (C07_overlap_truncated).  Vectors are nat-indexed functions into C with explicit
+   dimensions; inner / nrm2 / Cn2 are the finite-sum inner product, squared norm and squared modulus of Bessel.v.
+   Proof: Cauchy-Schwarz twice and Bessel's inequality three times (Bessel.v) reduce the claim to the arithmetic bound
+   C07_topk_bound. *)
+From Coq Require Import Reals Arith.
+From Coquelicot Require Import Complex.
+From QV Require Import TopK Bessel SchmidtOpt.
 Open Scope R_scope.
 
-Theorem C07_optimal_truncation_partial : forall (s w : nat -> R) (r k : nat), (k <= r)%nat ->
+Theorem C07_optimal_truncation : forall (p q r k : nat) (u v a b : nat -> nat -> C) (s : nat -> R) (t : nat -> C),
+  (k <= r)%nat ->
+  (forall i l, (i < r)%nat -> (l < r)%nat -> inner p (u i) (u l) = if Nat.eqb i l then RtoC 1 else RtoC 0) ->
+  (forall i l, (i < r)%nat -> (l < r)%nat -> inner q (v i) (v l) = if Nat.eqb i l then RtoC 1 else RtoC 0) ->
+  (forall i l, (i < k)%nat -> (l < k)%nat -> inner p (a i) (a l) = if Nat.eqb i l then RtoC 1 else RtoC 0) ->
+  (forall i l, (i < k)%nat -> (l < k)%nat -> inner q (b i) (b l) = if Nat.eqb i l then RtoC 1 else RtoC 0) ->
+  (forall i, (i < r)%nat -> 0 <= s i) ->
+  (forall i j, (i <= j)%nat -> (j < r)%nat -> s j <= s i) ->
+  nrm2 k t = 1 ->
+  Cn2 (overlap p q r k u v a b s t) <= rsum (fun i => s i * s i) k.
+Proof. exact schmidt_rank_bound. Qed.
+Print Assumptions C07_optimal_truncation.
+
+Theorem C07_cauchy_schwarz : forall d x y, Cn2 (inner d x y) <= nrm2 d x * nrm2 d y.
+Proof. exact cauchy_schwarz. Qed.
+Print Assumptions C07_cauchy_schwarz.
+
+Theorem C07_bessel : forall (d k : nat) (a : nat -> nat -> C),
+  (forall j l, (j < k)%nat -> (l < k)%nat -> inner d (a j) (a l) = if Nat.eqb j l then RtoC 1 else RtoC 0) ->
+  forall u, rsum (fun j => Cn2 (inner d (a j) u)) k <= nrm2 d u.
+Proof. exact bessel. Qed.
+Print Assumptions C07_bessel.
+
+Theorem C07_topk_bound : forall (s w : nat -> R) (r k : nat), (k <= r)%nat ->
   (forall i, (i < r)%nat -> 0 <= s i) ->
   (forall i j, (i <= j)%nat -> (j < r)%nat -> s j <= s i) ->
   (forall i, (i < r)%nat -> 0 <= w i <= 1) ->
   rsum w r <= INR k ->
   rsum (fun i => s i * w i) r <= rsum s k.
 Proof. exact topk_bound. Qed.
-Print Assumptions C07_optimal_truncation_partial.
+Print Assumptions C07_topk_bound.
